@@ -15,9 +15,11 @@ RULE = ("one case = (method, direction, dense flag, mix of 1..3 terminal and 0..
 ASSUMPTIONS = ["tangential terminal roots (|dg/dt| < 5% of scale) and runs whose node error makes root matching ambiguous are excluded",
                "continuations use no events or a different, later terminal event (re-arming the same event at its own root is not specified by the property)"]
 FLOORS = {"quick": {"terminal_landings": 50, "landings_backward": 15, "landings_with_substeps": 30, "continuations_checked": 45, "infinite_target_runs": 8,
-                    "dense_checked_after_stop": 15, "second_terminal_stops": 5, "close_pair_cases": 25},
+                    "dense_checked_after_stop": 15, "second_terminal_stops": 5, "close_pair_cases": 25,
+                    "landing_step_replay_steps": 60, "landings_far_from_time_origin": 8, "continuation_step_replay_steps": 40},
           "thorough": {"terminal_landings": 500, "landings_backward": 150, "landings_with_substeps": 300, "continuations_checked": 450, "infinite_target_runs": 50,
-                       "dense_checked_after_stop": 180, "second_terminal_stops": 40, "close_pair_cases": 180}}
+                       "dense_checked_after_stop": 180, "second_terminal_stops": 40, "close_pair_cases": 180,
+                       "landing_step_replay_steps": 600, "landings_far_from_time_origin": 80, "continuation_step_replay_steps": 400}}
 QUICK_METHODS = ["RK45CKSolver", "DOPRI45", "RK4Solver", "RK8713MSolver", "ABAs5o6HSolver", "RadauIIA5", "GaussLegendre4", "RK5Solver", "LobattoIIIC4", "RK108Solver"]
 CASE_TIMEOUT = 900
 K = 10.0
@@ -37,6 +39,9 @@ def gen_cases(tier, seed):
                 for r in range(reps):
                     L = float(rng.uniform(3.0, 6.0))
                     t0 = float(rng.uniform(-4, 4))
+                    if r % 2 == 1 and rng.random() < 0.7:
+                        # a time axis far from the origin: one ulp of t is then far above the absolute 4*eps the root finder starts from
+                        t0 += float(rng.choice([-1, 1])) * float(10 ** rng.uniform(1.5, 3.2))
                     cases.append(dict(method=name, direction=d, dense=dense, t0=t0, tf=t0 + d * L, nsteps=float(rng.uniform(20, 50)),
                                       nterm=int(rng.integers(1, 4)), nnon=int(rng.integers(0, 4)), inf=bool(rng.random() < 0.2),
                                       cont=str(rng.choice(["plain", "to_mid", "second_terminal", "plain"])), pseed=int(rng.integers(1 << 30)),
@@ -159,6 +164,8 @@ def run_case(spec):
         rec.violate("terminal_not_stopped", "status_not_terminated_by_event", feats, status=system.integration_status, t_last=float(t[-1]), expected=tr, event=evT.spec)
         return rec.out()
     rec.bump("terminal_landings")
+    if abs(t0) > 20:
+        rec.bump("landings_far_from_time_origin")
     rec.nontrivial = True
     if d < 0:
         rec.bump("landings_backward")
@@ -235,6 +242,11 @@ def run_case(spec):
             if e_ > 4 * dy * (1 + prob.lipschitz() * hmax) * 2 + 1e-12:
                 rec.violate("prefix_dense_accuracy", "dense_solution_inaccurate_on_the_prefix", feats, q=float(q), err=e_, bound=4 * dy)
                 break
+    # (f) the sub-steps that land on the root start from the row BEFORE the rolled-back step: nothing of that step may leak into them
+    tprev = [st["t_prev"] for st in trace.steps if st.get("terminate")]
+    if tprev:
+        k0 = int(np.argmin(np.abs(t - tprev[-1])))
+        sysrun.replay_steps(rec, info, f, t, y, range(max(0, k0 - 1), len(t) - 1), feats, rt_, rt_ * 1e-2, prob.lipschitz(), clause="landing_step_replay")
     # ---- continuation
     n_before = len(system)
     cont = spec["cont"]
@@ -277,6 +289,7 @@ def run_case(spec):
     # the prefix must be untouched by the continuation
     if not (np.array_equal(t2[:n_before], t) and np.array_equal(y2[:n_before], y)):
         rec.violate("continuation_prefix", "continuation_modified_rows_before_the_event", f2)
+    sysrun.replay_steps(rec, info, f, t2, y2, range(n_before - 1, min(n_before + 1, len(t2) - 1)), f2, rt_, rt_ * 1e-2, prob.lipschitz(), clause="continuation_step_replay")
     node2 = max(float(np.max(np.abs(y2[k].astype(np.longdouble) - prob.ystar(float(t2[k]))))) for k in range(n_before - 1, len(t2)))
     rec.worst("continuation_node_error", node2)
     if info["adaptive"] and node2 > 2000 * (rt_ * 1e-2 + rt_ * (1 + ymax)):
